@@ -23,8 +23,14 @@ Anything not recognised is emitted as an empty table / `other` token / `false` f
 the `decide` discharge in `Properties/C20.lean` (`size_literal_source_facts`) stops compiling instead.
 """
 import ast
+import importlib.util
 import re
+import sys
 from decimal import Decimal
+from pathlib import Path
+
+sys.path.insert(0, str(Path(__file__).resolve().parent.parent))
+import optflow as F  # noqa: E402 — tools/optflow.py: symbolic execution of the source under test
 
 
 def _lean_chars(s):
@@ -126,29 +132,226 @@ def _interpreter_facts(pattern):
     return json.loads(p.stdout)
 
 
-PIECE_VARS = {'snapshot': 'upload_chunk_size', 'restore': 'download_chunk_size',
-              'upload_objects': 'upload_chunk_size', 'download_objects': 'download_chunk_size'}
+COMMANDS = ('snapshot', 'restore', 'upload_objects', 'download_objects')
 
 
-def _piece_tokens(node):
-    """postfix tokens of an integer expression over `rate_limit` and `self._concurrent`"""
-    if isinstance(node, ast.Name) and node.id == 'rate_limit':
+def _piece_tokens(t):
+    """postfix tokens of an integer expression (a TERM of the symbolic execution) over `rate_limit` and `self._concurrent`"""
+    if t.op == 'p' and t.a[0] == 'rate_limit':
         return ['.limit']
-    if isinstance(node, ast.Attribute) and ast.unparse(node) == 'self._concurrent':
+    if t.op == 'attr' and t.a[1] == '_concurrent' and t.a[0].op == 'self':
         return ['.conc']
-    if isinstance(node, ast.Constant) and type(node.value) is int and node.value >= 0:
-        return [f'.lit {node.value}']
-    if isinstance(node, ast.BinOp) and isinstance(node.op, (ast.Mult, ast.FloorDiv, ast.Add)):
-        op = {ast.Mult: '.mul', ast.FloorDiv: '.floordiv', ast.Add: '.add'}[type(node.op)]
-        a, b = _piece_tokens(node.left), _piece_tokens(node.right)
+    if F.is_k(t) and type(t.a[0]) is int and t.a[0] >= 0:
+        return [f'.lit {t.a[0]}']
+    if t.op == 'bin' and t.a[0] in ('*', '//', '+'):
+        op = {'*': '.mul', '//': '.floordiv', '+': '.add'}[t.a[0]]
+        a, b = _piece_tokens(t.a[1]), _piece_tokens(t.a[2])
         if op != '.floordiv':
             a, b = sorted([a, b])      # `*` and `+` commute on ints (no side effects here): one canonical operand order
         return a + b + [op]
-    if (isinstance(node, ast.Call) and isinstance(node.func, ast.Name) and node.func.id in ('max', 'min') and len(node.args) == 2
-            and not node.keywords):
-        a, b = sorted([_piece_tokens(node.args[0]), _piece_tokens(node.args[1])])
-        return a + b + ['.max2' if node.func.id == 'max' else '.min2']
+    if t.op == 'call' and F.callee_name(t.a[0]) in ('max', 'min') and t.a[0].op == 'g' and len(t.a[1]) == 2 and not t.a[2]:
+        a, b = sorted([_piece_tokens(t.a[1][0]), _piece_tokens(t.a[1][1])])
+        return a + b + ['.max2' if F.callee_name(t.a[0]) == 'max' else '.min2']
     return ['.other']
+
+
+def _piece_text(t):
+    """Python-like rendering of a piece-size term (a comment in Generated.lean)"""
+    if t.op == 'p':
+        return t.a[0]
+    if t.op == 'attr' and t.a[0].op == 'self':
+        return 'self.' + t.a[1]
+    if F.is_k(t):
+        return repr(t.a[0])
+    if t.op == 'bin':
+        l, r = _piece_text(t.a[1]), _piece_text(t.a[2])
+        if t.a[2].op == 'bin':
+            r = f'({r})'
+        if t.a[1].op == 'bin' and t.a[1].a[0] != t.a[0]:
+            l = f'({l})'
+        return f'{l} {t.a[0]} {r}'
+    if t.op == 'call' and F.callee_name(t.a[0]) in ('max', 'min') and not t.a[2]:
+        return f'{F.callee_name(t.a[0])}(' + ', '.join(_piece_text(x) for x in t.a[1]) + ')'
+    return F.show(t)[:80]
+
+
+def _stream_calls(ex):
+    """every call of `self.backend.upload_stream` / `download_stream`, direct (`f(*args)`) or deferred
+    (`run_in_executor(executor, f, *args)`, `to_thread(f, *args)`, `partial(f, *args)`, `submit(f, *args)`) →
+    (method name, positional args, keyword args, event)"""
+    def is_stream(t):
+        sm = F.split_method(t)
+        if sm is not None and sm[1] in ('upload_stream', 'download_stream') and sm[0].op == 'attr' and sm[0].a[1] == 'backend' \
+                and sm[0].a[0].op == 'self':
+            return sm[1]
+        return None
+    for e in ex.events:
+        if e.kind != 'call':
+            continue
+        m = is_stream(e.f)
+        if m is not None:
+            yield m, e.args, e.kwargs, e
+            continue
+        # deferred: only the known "run this function with these arguments" callers (a repo function that was followed shows
+        # the real call in its body; a predicate such as `inspect.iscoroutinefunction(f)` is not a call of f)
+        sm = F.split_method(e.f)
+        runner = (sm[1] if sm is not None else (F.callee_name(e.f) or '').split('.')[-1])
+        if e.inlined or runner not in ('run_in_executor', 'submit', 'to_thread', 'partial', 'run_sync', 'call_soon', 'call_soon_threadsafe'):
+            continue
+        for i, a in enumerate(e.args):
+            m = is_stream(a) if isinstance(a, F.T) and a.op in ('attr', 'bound') else None
+            if m is not None:
+                yield m, e.args[i + 1:], tuple((k, v) for k, v in e.kwargs if k not in ('executor', 'loop')), e
+
+
+def piece_site(repo, name):
+    """the piece size that reaches the backend's stream method inside command `name` when a rate limit is given →
+    (tokens, text).  Found by following the value into the call, wherever it is computed."""
+    fn = repo.func('replicat.repository', 'Repository', name)
+    base = repo.cls('replicat.backends.base', 'Backend')
+    if fn is None or base is None:
+        return ['.other'], 'command / Backend not found'
+    ex = F.Exec(repo)
+    ex.run(fn)
+    given = F.Val().set(F.mk('isnone', F.mk('p', 'rate_limit')), False)
+    found = {}
+    n = 0
+    for meth, args, kwargs, ev in _stream_calls(ex):
+        if F.truth(ev.pc, given) is False:
+            continue
+        sig = base.find_method(meth)
+        names = [a.arg for a in sig.node.args.args][1:] if sig is not None else []
+        if 'chunk_size' not in names or any(a.op == 'star' for a in args):
+            return ['.other'], f'{meth}: signature / starred arguments'
+        i = names.index('chunk_size')
+        v = dict((k, x) for k, x in kwargs if k is not None).get('chunk_size', args[i] if i < len(args) else None)
+        n += 1
+        if v is None:
+            return ['.other'], f'{meth} called without a piece size'
+        r = F.resolve(v, given)
+        found[id(r)] = r
+    if n == 0:
+        return ['.other'], 'no stream call'
+    toks = {tuple(_piece_tokens(r)) for r in found.values()}
+    if len(toks) != 1:
+        return ['.other'], f'{len(toks)} different piece sizes'
+    r = next(iter(found.values()))
+    return list(toks.pop()), _piece_text(r)
+
+
+# ------------------------------------------------------------------ the glue functions, by behaviour
+def _group_of(t, M):
+    """`M.groupdict()['g']`, `M.group('g')`, `M['g']` → 'g'"""
+    if t.op == 'item' and isinstance(F.kval(t.a[1]), str):
+        b = t.a[0]
+        if b is M:
+            return F.kval(t.a[1])
+        if b.op == 'call' and F.split_method(b.a[0]) == (M, 'groupdict') and not b.a[1] and not b.a[2]:
+            return F.kval(t.a[1])
+    if t.op == 'call' and F.split_method(t.a[0]) == (M, 'group') and len(t.a[1]) == 1 and isinstance(F.kval(t.a[1][0]), str) and not t.a[2]:
+        return F.kval(t.a[1][0])
+    return None
+
+
+def _amount_shape(t, M):
+    if t.op == 'call' and F.callee_name(t.a[0]) == 'decimal.Decimal' and len(t.a[1]) == 1 and not t.a[2]:
+        g = _group_of(t.a[1][0], M)
+        return ('dec', g) if g else None
+    if t.op == 'bin' and t.a[0] == '*':
+        l = _amount_shape(t.a[1], M)
+        r = t.a[2]
+        if l is not None and r.op == 'item' and r.a[0].op == 'gv':
+            g = _group_of(r.a[1], M)
+            if g:
+                return ('mul', l, (r.a[0].a[0].split('.')[-1], g))
+    return None
+
+
+def _match_event(ex, V):
+    """the event that matches V against HUMAN_SIZE_REGEX as a whole → (event, other matching primitives used)"""
+    hit, other = None, []
+    for e in ex.events:
+        if e.kind != 'call':
+            continue
+        n = e.fq() or ''
+        sm = F.split_method(e.f)
+        prim = n.split('.')[-1] if n.startswith('re.') else (sm[1] if sm is not None else None)
+        if prim not in ('fullmatch', 'match', 'search', 'findall', 'finditer', 'sub', 'subn', 'split'):
+            continue
+        is_regex = lambda t: t.op == 'gv' and t.a[0] == 'replicat.utils.HUMAN_SIZE_REGEX'      # noqa: E731
+        direct = n == 're.fullmatch' and len(e.args) == 2 and is_regex(e.args[0]) and e.args[1] is V and not e.kwargs
+        compiled = False
+        if sm is not None and sm[1] == 'fullmatch' and list(e.args) == [V] and not e.kwargs:
+            pat = sm[0].a[1] if sm[0].op == 'gv' else sm[0]
+            compiled = pat.op == 'call' and F.callee_name(pat.a[0]) == 're.compile' and len(pat.a[1]) == 1 and is_regex(pat.a[1][0]) and not pat.a[2]
+        if (direct or compiled) and hit is None:
+            hit = e
+        else:
+            other.append(e)
+    return hit, other
+
+
+def glue_human_to_bytes(repo):
+    """→ (behaves as modelled, whole-string match on the regex)"""
+    fn = repo.func('replicat.utils', 'human_to_bytes')
+    if fn is None:
+        return False, False
+    V = F.mk('p', fn.node.args.args[0].arg)
+    ex = F.Exec(repo)
+    ret = ex.run(fn)
+    me, other = _match_event(ex, V)
+    if me is None or other:
+        return False, False
+    M = me.result
+    full = F.contains(ret, M)
+    raises = [e for e in ex.events if e.kind == 'raise']
+    n0, t0 = F.mk('isnone', M), F.mk('truthy', M)       # a Match object is always true: `if not match` ≡ `if match is None`
+
+    def matched(yes):
+        return F.Val().set(n0, not yes).set(t0, yes)
+    ok = len(raises) == 1 and F.callee_name(raises[0].value.a[0] if raises[0].value.op == 'call' else raises[0].value) == 'ValueError' \
+        and F.truth(raises[0].pc, matched(False)) is True and F.truth(raises[0].pc, matched(True)) is False
+    if ok:
+        tests = {}
+        for at in F.atoms(ret) + F.phi_atoms(ret):
+            if at.op == 'isnone':
+                g = _group_of(at.a[0], M)
+                if g in ('prefix', 'unit'):
+                    tests.setdefault(g, []).append(at)
+        if set(tests) != {'prefix', 'unit'}:
+            ok = False
+        for has_p in (True, False):
+            for has_u in (True, False):
+                if not ok:
+                    break
+                val = matched(True)
+                for at in tests['prefix']:
+                    val.set(at, not has_p)
+                for at in tests['unit']:
+                    val.set(at, not has_u)
+                r = F.resolve(ret, val)
+                want = ('dec', 'value')
+                if has_p:
+                    want = ('mul', want, ('PREFIXES_TABLE', 'prefix'))
+                if has_u:
+                    want = ('mul', want, ('UNITS_TABLE', 'unit'))
+                if not (r.op == 'call' and F.callee_name(r.a[0]) == 'int' and len(r.a[1]) == 1 and not r.a[2]
+                        and _amount_shape(r.a[1][0], M) == want):
+                    ok = False
+    return ok, full
+
+
+def _shared(ctx):
+    """what tools/sections/19_options.py already computed in this run (argparse introspection, Config.apply_known /
+    apply_env by symbolic execution); computed here if that plug-in did not run"""
+    sh = getattr(ctx, 'c19_shared', None)
+    if sh is not None:
+        return sh
+    spec = importlib.util.spec_from_file_location('sections_19_options_for_sizelit', Path(__file__).resolve().parent / '19_options.py')
+    mod = importlib.util.module_from_spec(spec)
+    spec.loader.exec_module(mod)
+    return {'info': mod.introspect(ctx), 'config': mod.config_ast(ctx), 'ty_of': mod.ty_of, 'TY_CLI': mod.TY_CLI,
+            'classify': mod.classify_by_behaviour}
 
 
 def section(ctx):
@@ -226,31 +429,31 @@ def section(ctx):
     emit(f'def sizeRegexGroupCount : Nat := {len(groups)}')
     emit(f'def sizeRegexUnicode : Bool := {"true" if isinstance(pattern, str) and not flagged else "false"}')
 
-    # ---- the glue functions
+    # ---- the glue functions: by what they do (symbolic execution), not by their text
     csrc = (ctx.REPO / 'replicat' / 'utils' / 'cli.py').read_text()
     ctree = ast.parse(csrc)
-    want = {
-        ('utils', 'human_to_bytes'): (
-            "match = re.fullmatch(HUMAN_SIZE_REGEX, value)\nif match is None:\n    raise ValueError\ngroups = match.groupdict()\n"
-            "bytes_amount = Decimal(groups['value'])\nif groups['prefix'] is not None:\n    bytes_amount *= PREFIXES_TABLE[groups['prefix']]\n"
-            "if groups['unit'] is not None:\n    bytes_amount *= UNITS_TABLE[groups['unit']]\nreturn int(bytes_amount)"),
-        ('cli', '_natural_number'): "if (converted := int(value)) < 1:\n    raise ValueError\nreturn converted",
-        ('cli', '_rate_limit'): "return _natural_number(human_to_bytes(value))",
-    }
-    glue_ok = True
-    for (mod, name), body in want.items():
-        f = ctx.find_func(utree if mod == 'utils' else ctree, name)
-        ctx.fp(f'{mod}.{name}', f)
-        got = '\n'.join(ctx.unparse(s) for s in f.body) if f is not None else None
-        if got != body:
-            glue_ok = False
-            ctx.notes[f'sizelit.{name}'] = 'body differs from the modelled one'
-    h2b = ctx.find_func(utree, 'human_to_bytes')
-    fullmatch = False
-    if h2b is not None:
-        # whole-string matching: some `….fullmatch(…)` call and no other matching primitive (however the pattern object is obtained)
-        attrs = [n.func.attr for n in ast.walk(h2b) if isinstance(n, ast.Call) and isinstance(n.func, ast.Attribute)]
-        fullmatch = 'fullmatch' in attrs and not any(a in ('match', 'search', 'findall', 'finditer', 'sub', 'subn', 'split') for a in attrs)
+    repo = F.shared_repo(ctx.REPO)
+    for (mod, name) in [('utils', 'human_to_bytes'), ('cli', '_natural_number'), ('cli', '_rate_limit')]:
+        ctx.fp(f'{mod}.{name}', ctx.find_func(utree if mod == 'utils' else ctree, name))      # (fingerprints: advisory)
+    try:
+        h2b_ok, fullmatch = glue_human_to_bytes(repo)
+    except Exception as e:  # noqa: BLE001
+        h2b_ok, fullmatch = False, False
+        ctx.notes['sizelit.human_to_bytes'] = f'not analysed: {e!r}'
+    # the type function of the -L options (whatever it is called) must BEHAVE as `int(human_to_bytes(v))`, refusing < 1
+    cli_ok = False
+    try:
+        sh0 = _shared(ctx)
+        tyfq = {a['type'] for grp in [sh0['info'].get('initial', []), sh0['info'].get('common', []), sh0['info'].get('top', [])]
+                + [c['specific'] for c in sh0['info'].get('commands', [])] for a in grp if a['dest'] == 'rate_limit'}
+        cli_ok = bool(tyfq) and all(t is not None and sh0['classify'](repo, t) == 'rateLimit' for t in tyfq)
+    except Exception as e:  # noqa: BLE001
+        ctx.notes['sizelit.cli'] = f'not analysed: {e!r}'[:200]
+    glue_ok = h2b_ok and cli_ok
+    if not h2b_ok:
+        ctx.notes['sizelit.human_to_bytes'] = ctx.notes.get('sizelit.human_to_bytes', 'behaviour differs from the modelled one')
+    if not cli_ok:
+        ctx.notes['sizelit._rate_limit'] = 'behaviour of _natural_number / _rate_limit differs from the modelled one'
     emit(f'def sizeRegexFullmatch : Bool := {"true" if fullmatch else "false"}')
     emit(f'def sizeGlueRecognised : Bool := {"true" if glue_ok else "false"}')
     # the names used in human_to_bytes / cli must be the module-level ones (no re-binding of Decimal / int / re)
@@ -284,64 +487,79 @@ def section(ctx):
     emit('def spaceChars : List Nat := [' + ', '.join(map(str, spaces)) + ']')
     ctx.notes['sizelit.unicode'] = f'Unicode {unidata}: {len(zeros)} digit blocks, {len(spaces)} white-space code points'
 
-    # ---- where the limit can come from
+    # ---- where the limit can come from: the parsers argparse really builds, Config by symbolic execution
     opts = []
-    for node in ast.walk(ctree):
-        if isinstance(node, ast.Call) and isinstance(node.func, ast.Attribute) and node.func.attr == 'add_argument':
-            kw = {k.arg: k.value for k in node.keywords}
-            if 'dest' in kw and isinstance(kw['dest'], ast.Constant) and kw['dest'].value == 'rate_limit':
-                flags_ = [a.value for a in node.args if isinstance(a, ast.Constant)]
-                ty = ctx.unparse(kw['type']) if 'type' in kw else ''
-                others = sorted(set(kw) - {'dest', 'type', 'help'})
-                opts.append((flags_, ty, others))
+    fields, keys, envs = [], [], []
+    have_cfg = False
+    try:
+        sh = _shared(ctx)
+        info = sh['info']
+        groups = [info.get('initial', []), info.get('common', []), info.get('top', [])] + [c['specific'] for c in info.get('commands', [])]
+        for acts in groups:
+            for a in acts:
+                if a['dest'] != 'rate_limit':
+                    continue
+                # the function the model calls `_rate_limit` (= natural number of human_to_bytes), under whatever name
+                ty = (a['type'] or '')
+                if sh['ty_of'](repo, a['type'], sh['TY_CLI']) == 'rateLimit':
+                    ty = '_rate_limit'
+                elif ty.startswith('replicat.utils.cli.'):
+                    ty = ty.rsplit('.', 1)[-1]
+                    ty = ty + '?' if ty == '_rate_limit' else ty
+                others = sorted(x for x, on in (('action', a['cls'] != '_StoreAction'), ('nargs', a['nargs'] is not None),
+                                                ('default', a['default_kind'] != 'none'), ('required', a['required']),
+                                                ('const', a['const_repr'] != 'None')) if on)
+                opts.append((a['flags'], ty, others))
+        fields = [f['name'] for f in info['config_fields']]
+        file_keys, _mutex, env_vars, recognised = sh['config'][:4]
+        keys = [k for k, _f, kind, _t in file_keys if kind == 'plain'] + [k for k, _f, kind, _t in file_keys if kind != 'plain']
+        envs = [v for v, _f, _t in env_vars]
+        have_cfg = bool(recognised) and bool(fields)
+    except Exception as e:  # noqa: BLE001
+        ctx.notes['sizelit.sources'] = f'not analysed: {e!r}'[:200]
     emit('/-- options with `dest=\'rate_limit\'`, one per sub-command: (flags, type function, keywords other than dest/type/help) -/')
     emit('def rateLimitOptions : List (List String × String × List String) := ['
          + ', '.join('([%s], %s, [%s])' % (', '.join(_lean_str(x) for x in fl), _lean_str(ty), ', '.join(_lean_str(x) for x in oth))
                      for fl, ty, oth in opts) + ']')
-    cfgsrc = (ctx.REPO / 'replicat' / 'utils' / 'config.py').read_text()
-    cfgtree = ast.parse(cfgsrc)
-    cfg = ctx.find_func(cfgtree, 'Config')
-    fields = [st.target.id for st in (cfg.body if cfg is not None else []) if isinstance(st, ast.AnnAssign) and isinstance(st.target, ast.Name)]
-    keys, envs = [], []
-    for node in ast.walk(cfg) if cfg is not None else []:
-        if isinstance(node, ast.Call):
-            fn = ctx.unparse(node.func)
-            if fn in ('self.popset', 'self.getset') and len(node.args) >= 2 and isinstance(node.args[1], ast.Constant):
-                (envs if ctx.unparse(node.args[0]) == 'os.environ' else keys).append(node.args[1].value)
-            elif fn == 'remaining.pop' and node.args and isinstance(node.args[0], ast.Constant):
-                keys.append(node.args[0].value)
-            elif fn == '_get_environb' and node.args and isinstance(node.args[0], ast.Constant):
-                envs.append(node.args[0].value)
 
     def ratey(s):
         s = str(s).lower()
         return 'rate' in s or 'limit' in s
-    from_file = cfg is None or any(ratey(x) for x in fields + keys)
-    from_env = cfg is None or any(ratey(x) for x in envs)
-    main_src = (ctx.REPO / 'replicat' / '__main__.py').read_text()
+    from_file = (not have_cfg) or any(ratey(x) for x in fields + keys)
+    from_env = (not have_cfg) or any(ratey(x) for x in envs)
     # any other read of the environment in the option pipeline would be a new source
-    env_reads_main = len(re.findall(r'os\.environ|getenv', main_src))
+    env_reads_main = 1
+    try:
+        fmain = repo.func('replicat.__main__', 'main')
+        mx = F.Exec(repo, inline=lambda t, ex: t.nested or (t.module.fq == 'replicat.__main__' and t.name != '_cmd_handler'))
+        mx.run(fmain)
+        env_reads_main = 0
+        seen = set()
+        for e in mx.events:
+            for t in [e.f, *(e.args or ()), *[v for _, v in (e.kwargs or ())], e.value, e.obj]:
+                for x in (F.subterms(t, seen) if t is not None else ()):
+                    if x.op == 'g' and (x.a[0].startswith(('os.environ', 'os.getenv', 'os.putenv')) or x.a[0] == 'getenv'):
+                        env_reads_main += 1
+    except Exception as e:  # noqa: BLE001
+        ctx.notes['sizelit.main_env'] = f'not analysed: {e!r}'[:200]
     emit('/-- `Config` fields %s; file keys %s; environment variables %s -/' % tuple(str(x).replace('-/', '- /') for x in (fields, keys, envs)))
     emit(f'def rateLimitFromFile : Bool := {"true" if from_file else "false"}')
     emit(f'def rateLimitFromEnv : Bool := {"true" if (from_env or env_reads_main) else "false"}')
-    ctx.notes['sizelit.sources'] = f'Config fields {fields}; file keys {keys}; env {envs}'
+    ctx.notes['sizelit.sources'] = ctx.notes.get('sizelit.sources', f'Config fields {fields}; file keys {keys}; env {envs}')
 
-    # ---- piece sizes at the four call sites
-    rsrc = (ctx.REPO / 'replicat' / 'repository.py').read_text()
-    rtree = ast.parse(rsrc)
+    # ---- piece sizes: the value that reaches the backend's stream method in each of the four commands
     sites = []
-    for fn, var in PIECE_VARS.items():
-        f = ctx.find_func(rtree, 'Repository', fn)
-        exprs = []
-        for node in ast.walk(f) if f is not None else []:
-            if isinstance(node, ast.Assign) and len(node.targets) == 1 and ctx.unparse(node.targets[0]) == var \
-                    and any(isinstance(n, ast.Name) and n.id == 'rate_limit' for n in ast.walk(node.value)):
-                exprs.append(node.value)
-        if len(exprs) == 1:
-            sites.append((fn, _piece_tokens(exprs[0]), ctx.unparse(exprs[0])))
-        else:
-            sites.append((fn, ['.other'], f'{len(exprs)} assignments'))
-            ctx.notes[f'sizelit.piece.{fn}'] = f'{len(exprs)} assignments of {var} from rate_limit'
+    for fn in COMMANDS:
+        try:
+            toks, text = piece_site(repo, fn)
+        except Exception as e:  # noqa: BLE001
+            toks, text = ['.other'], f'not analysed: {e!r}'[:120]
+        if toks == ['.other']:
+            ctx.notes[f'sizelit.piece.{fn}'] = text
+        sites.append((fn, toks, text))
+    # (for the harness: the piece-size expressions as Python text over `rate_limit` / `self._concurrent`, wherever they are computed)
+    import json as _json
+    ctx.notes['sizelit.piece_exprs'] = _json.dumps({fn: text for fn, toks, text in sites if toks != ['.other']})
     emit('/-- `max(rate_limit // (self._concurrent * 16), 1)` as written at each call site, postfix -/')
     emit('def pieceSites : List (String × List PieceTok) := [' + ', '.join('("%s", [%s])' % (fn, ', '.join(t)) for fn, t, _ in sites) + ']')
     for fn, _t, text in sites:
